@@ -32,6 +32,12 @@ pub enum Op {
     /// a registration the OS refuses (signal number 1000, 65 or 0): returns an error and must leave
     /// everything - registry, dispositions, the calling thread's signal mask - as it was
     RegisterRefused { which: u8 },
+    /// block the signal in the (only) thread: deliveries made while it is blocked stay pending
+    /// (ordinary signals collapse into one, real-time ones queue) ...
+    Block { sig: u8 },
+    /// ... and arrive at the instant it is unblocked: they run the actions registered at *that*
+    /// instant, whatever was registered or removed while they were pending
+    Unblock { sig: u8 },
 }
 
 /// default action of the pool's signals that does not end the process: 1 ignore, 2 stop
@@ -68,6 +74,13 @@ fn prior_flags(sel: u8) -> libc::c_int {
     }
 }
 
+/// The kernel discards a pending SIGCONT when a stop signal is generated and pending stop signals
+/// when SIGCONT is generated: pending job-control signals are not a plain queue, so the histories
+/// never block these four.
+fn job_control(s: c_int) -> bool {
+    [libc::SIGCONT, libc::SIGTSTP, libc::SIGTTIN, libc::SIGTTOU].contains(&s)
+}
+
 static PRIOR_CALLS: AtomicUsize = AtomicUsize::new(0);
 
 extern "C" fn prior1(_sig: c_int) {
@@ -86,6 +99,8 @@ pub fn strategy(maxlen: usize) -> BoxedStrategy<C05Case> {
         5 => (0u8..20).prop_map(|sig| Op::Deliver { sig }),
         1 => (0u8..20).prop_map(|sig| Op::Emulate { sig }),
         1 => (0u8..3).prop_map(|which| Op::RegisterRefused { which }),
+        1 => (0u8..20).prop_map(|sig| Op::Block { sig }),
+        2 => (0u8..20).prop_map(|sig| Op::Unblock { sig }),
     ];
     (
         prop_oneof![2 => 1u8..4, 1 => 4u8..21],
@@ -99,7 +114,7 @@ pub fn strategy(maxlen: usize) -> BoxedStrategy<C05Case> {
             }
             for o in ops.iter_mut() {
                 match o {
-                    Op::Register { sig, .. } | Op::UnregisterSignal { sig } | Op::Deliver { sig } | Op::Emulate { sig } => *sig %= nsig,
+                    Op::Register { sig, .. } | Op::UnregisterSignal { sig } | Op::Deliver { sig } | Op::Emulate { sig } | Op::Block { sig } | Op::Unblock { sig } => *sig %= nsig,
                     _ => {}
                 }
             }
@@ -136,6 +151,13 @@ fn child(case: &C05Case, fd: i32) {
     let mut ids: Vec<SigId> = Vec::new();
     let mut seen: HashSet<SigId> = HashSet::new();
     let mut taken: BTreeSet<c_int> = BTreeSet::new();
+    let mut blocked: BTreeSet<c_int> = BTreeSet::new();
+    let mask_op = |how: c_int, s: c_int| unsafe {
+        let mut set: libc::sigset_t = std::mem::zeroed();
+        libc::sigemptyset(&mut set);
+        libc::sigaddset(&mut set, s);
+        libc::pthread_sigmask(how, &set, std::ptr::null_mut());
+    };
     for (i, op) in case.ops.iter().enumerate() {
         let mut rec = json!({"k": "op", "step": i});
         match op {
@@ -177,7 +199,14 @@ fn child(case: &C05Case, fd: i32) {
             }
             Op::Deliver { sig } => {
                 let s = POOL[*sig as usize % 20];
-                if taken.contains(&s) {
+                if taken.contains(&s) && blocked.contains(&s) {
+                    let p0 = LOGPOS.load(Ordering::SeqCst);
+                    let rc = unsafe { libc::raise(s) };
+                    let p1 = LOGPOS.load(Ordering::SeqCst).min(LOGN);
+                    rec["ran"] = json!("pending");
+                    rec["raise_rc"] = json!(rc);
+                    rec["ran_while_blocked"] = json!(p1 - p0);
+                } else if taken.contains(&s) {
                     let p0 = LOGPOS.load(Ordering::SeqCst);
                     unsafe { libc::raise(s) };
                     let p1 = LOGPOS.load(Ordering::SeqCst).min(LOGN);
@@ -185,6 +214,25 @@ fn child(case: &C05Case, fd: i32) {
                     rec["ran"] = json!(ran);
                 } else {
                     rec["ran"] = json!("skipped");
+                }
+            }
+            Op::Block { sig } => {
+                let s = POOL[*sig as usize % 20];
+                if !job_control(s) {
+                    mask_op(libc::SIG_BLOCK, s);
+                    blocked.insert(s);
+                }
+            }
+            Op::Unblock { sig } => {
+                let s = POOL[*sig as usize % 20];
+                if blocked.remove(&s) {
+                    let p0 = LOGPOS.load(Ordering::SeqCst);
+                    mask_op(libc::SIG_UNBLOCK, s);
+                    let p1 = LOGPOS.load(Ordering::SeqCst).min(LOGN);
+                    let ran: Vec<i32> = (p0..p1).map(|p| LOG[p].load(Ordering::SeqCst)).collect();
+                    rec["ran"] = json!(ran);
+                } else {
+                    rec["ran"] = json!("not-blocked");
                 }
             }
             Op::RegisterRefused { which } => {
@@ -199,7 +247,7 @@ fn child(case: &C05Case, fd: i32) {
             Op::Emulate { sig } => {
                 let s = POOL[*sig as usize % 20];
                 let kind = survivable_default(s);
-                if taken.contains(&s) && kind != 0 {
+                if taken.contains(&s) && kind != 0 && !blocked.contains(&s) {
                     let mut helper = -1;
                     if kind == 2 {
                         // someone has to continue us: a helper process that sends one SIGCONT as
@@ -263,7 +311,7 @@ fn child(case: &C05Case, fd: i32) {
     emit(fd, &json!({"k": "untouched", "changed": touched}));
     // a blocking read interrupted by a handled signal restarts
     if case.restart_probe {
-        if let Some(s) = taken.iter().next().cloned() {
+        if let Some(s) = taken.iter().find(|s| !blocked.contains(s)).cloned() {
             let mut p = [0i32; 2];
             unsafe { libc::pipe(p.as_mut_ptr()) };
             RESTART_FD.store(p[1], Ordering::SeqCst);
@@ -329,6 +377,8 @@ pub fn run_case(case: &C05Case) -> CaseReport {
     let mut issued: Vec<(u8, bool)> = Vec::new(); // id index -> (sig, live)
     let mut taken: BTreeSet<u8> = BTreeSet::new();
     let mut stale_unreg = false;
+    // signal index -> number of deliveries pending while blocked
+    let mut blocked_m: BTreeMap<u8, u32> = BTreeMap::new();
     let mut deliver_after_removal = false;
     let mut removed_any = false;
     for (i, op) in case.ops.iter().enumerate() {
@@ -380,6 +430,46 @@ pub fn run_case(case: &C05Case) -> CaseReport {
                     issued[idx].1 = false;
                     removed_any = true;
                 }
+            }
+            Op::Block { sig } => {
+                if !job_control(POOL[*sig as usize % 20]) {
+                    blocked_m.entry(*sig).or_insert(0);
+                }
+            }
+            Op::Unblock { sig } => {
+                if let Some(n) = blocked_m.remove(sig) {
+                    if r["ran"] == "not-blocked" {
+                        rep.inconclusive = Some("model/child disagree on the blocked set".into());
+                        return rep;
+                    }
+                    // ordinary signals collapse into one pending instance, real-time ones queue
+                    let times = if POOL[*sig as usize % 20] >= 34 { n } else { n.min(1) };
+                    let one: Vec<i64> = model.get(sig).map(|l| l.iter().map(|x| x.1 as i64).collect()).unwrap_or_default();
+                    let mut want: Vec<i64> = Vec::new();
+                    for _ in 0..times {
+                        want.extend(one.iter());
+                    }
+                    let got: Vec<i64> = r["ran"].as_array().map(|a| a.iter().filter_map(|x| x.as_i64()).collect()).unwrap_or_default();
+                    if n > 0 {
+                        rep.class("pending-delivery-at-unblock");
+                    }
+                    if got != want {
+                        rep.viol("C05/log-mismatch", format!("step {}: signal {} was unblocked with {} delivery(ies) pending: ran actions {:?}, the model (actions registered at the instant of unblocking{}) expects {:?}", i, POOL[*sig as usize % 20], n, got, if times > 1 { ", once per queued instance" } else { "" }, want));
+                    }
+                }
+            }
+            Op::Deliver { sig } if blocked_m.contains_key(sig) => {
+                if !taken.contains(sig) {
+                    continue;
+                }
+                if r["raise_rc"].as_i64() != Some(0) {
+                    rep.inconclusive = Some("raise failed (queued-signal quota?)".into());
+                    return rep;
+                }
+                if r["ran_while_blocked"].as_u64().unwrap_or(0) != 0 {
+                    rep.viol("C05/log-mismatch", format!("step {}: actions ran for a blocked signal", i));
+                }
+                *blocked_m.get_mut(sig).unwrap() += 1;
             }
             Op::Deliver { sig } => {
                 if !taken.contains(sig) {
@@ -712,7 +802,7 @@ fn replay(v: &Value) -> CaseReport {
 pub static C05: PropDef = PropDef {
     id: "C05",
     prefixes: &["C05/"],
-    rule: "forkprobe: histories (quick <=40, thorough <=200 ops) over {register, register_sigaction, unregister(live or stale id), unregister_signal, deliver (real raise)} on 1-20 catchable signals including realtime numbers; reference model = per-signal ordered list of (id, tag) + set of taken-over signals; after every step: return value equals the model's, ids never repeat, a delivery runs exactly the model's list in order, every taken-over signal keeps the library handler with SA_RESTART|SA_SIGINFO, untouched signals keep their disposition; optional directed probe: a blocking read interrupted by a handled signal restarts. Worker 0 adds two long-run soaks per run (200 000 + 60 000 operations, 12x in the thorough tier, in one process on three signals incl. a real-time one against an in-process model: ids beyond 16 bits, churn with <=6 and <=40 live actions, then 700 live actions on one signal removed from the middle, deliveries compared with the model throughout). Non-trivial = >=2 signals, >=1 stale unregister and a delivery after a removal; distinct = the case value",
+    rule: "forkprobe: histories (quick <=40, thorough <=200 ops) over {register, register_sigaction, unregister(live or stale id), unregister_signal, deliver (real raise), block / unblock of a signal with deliveries pending in between} on 1-20 catchable signals including realtime numbers; reference model = per-signal ordered list of (id, tag) + set of taken-over signals; after every step: return value equals the model's, ids never repeat, a delivery runs exactly the model's list in order, every taken-over signal keeps the library handler with SA_RESTART|SA_SIGINFO, untouched signals keep their disposition; optional directed probe: a blocking read interrupted by a handled signal restarts. Worker 0 adds two long-run soaks per run (200 000 + 60 000 operations, 12x in the thorough tier, in one process on three signals incl. a real-time one against an in-process model: ids beyond 16 bits, churn with <=6 and <=40 live actions, then 700 live actions on one signal removed from the middle, deliveries compared with the model throughout). Non-trivial = >=2 signals, >=1 stale unregister and a delivery after a removal; distinct = the case value",
     assumptions: &["signals are raised only once taken over by the library"],
     cases: (1500, 40_000),
     shrink_iters: 300,
